@@ -41,6 +41,7 @@ type simulator struct {
 	log       []simRequest
 	canary    string
 	canaryLog []string
+	resumed   int // TLS handshakes that resumed an earlier session (the client offered a ticket)
 }
 
 type simRequest struct {
@@ -143,6 +144,11 @@ func (s *simulator) handle(raw net.Conn, cfg *tls.Config, authority string) {
 	if err := conn.Handshake(); err != nil {
 		return
 	}
+	if conn.ConnectionState().DidResume {
+		s.mu.Lock()
+		s.resumed++
+		s.mu.Unlock()
+	}
 	rd := bufio.NewReader(conn)
 	var req strings.Builder
 	for {
@@ -243,7 +249,14 @@ func (s *simulator) setRoutes(routes map[string]route) {
 	s.routes = routes
 	s.log = nil
 	s.canaryLog = nil
+	s.resumed = 0
 	s.mu.Unlock()
+}
+
+func (s *simulator) resumedSessions() int {
+	s.mu.Lock()
+	defer s.mu.Unlock()
+	return s.resumed
 }
 
 func (s *simulator) takeLog() []simRequest {
